@@ -1,5 +1,67 @@
-(* Wire entry points of the C09 model (stub until the model is built). *)
-From Coq Require Import ZArith List.
-From SG Require Import Base.Sx.
+(* Wire entry points of the C09 model (global adaptive 1D trapezoidal rule, moment checker). *)
+From Coq Require Import ZArith List Bool QArith Qcanon.
+From SG Require Import Base.Sx Base.QcUtil Model.Trap.
+Import ListNotations.
 Open Scope Z_scope.
-Definition entry_C09 (sub : Z) (a : sx) : sx := sx_err 0.
+
+Definition of_opt_weights (o : option (list Qc)) : sx :=
+  match o with Some w => Lv [Zv 1; of_LQc w] | None => Lv [Zv 0] end.
+
+Definition of_grid (o : option grid1d) : sx :=
+  match o with
+  | Some g => Lv [Zv 1; of_LQc (g_coords g); of_LQc (g_weights g); of_LZ (g_levels g); Zv (Z.of_nat (g_num_points g))]
+  | None => Lv [Zv 0]
+  end.
+
+(* one dimension of sub 3: (a b xs levels coeffs) *)
+Definition dim_quad (boundary mb : bool) (s : sx) : option Qc :=
+  match s with
+  | Lv [a; b; xs; lv; cs] =>
+    match get_Qc a, get_Qc b, get_LQc xs, get_LZ lv, get_LQc cs with
+    | Some a, Some b, Some xs, Some lv, Some cs =>
+      match set_grid_1d boundary mb a b xs lv with
+      | Some g => Some (quad1 (g_weights g) (g_coords g) (poly_eval cs))
+      | None => None
+      end
+    | _, _, _, _, _ => None
+    end
+  | _ => None
+  end.
+
+Fixpoint prodQ (l : list Qc) : Qc := match l with [] => 1%Qc | x :: r => (x * prodQ r)%Qc end.
+
+(* sub 0: (mb a b (x ...))                         -> (1 (w ...)) | (0)      compute_weights
+   sub 1: (boundary mb a b (x ...) (level ...))    -> (1 coords weights levels numPoints) | (0)   set_grid, one dimension
+   sub 2: ((p ...) (w ...) a b (tol ...))           -> (ok (residual ...) nonneg)   verified checker moments_ok
+   sub 3: (boundary mb ((a b xs levels coeffs) ...)) -> (1 value) | (0)       tensor rule applied to a product of polynomials *)
+Definition entry_C09 (sub : Z) (arg : sx) : sx :=
+  match sub, arg with
+  | 0, Lv [mb; a; b; xs] =>
+    match get_bool mb, get_Qc a, get_Qc b, get_LQc xs with
+    | Some mb, Some a, Some b, Some xs => of_opt_weights (compute_weights xs a b mb)
+    | _, _, _, _ => sx_err 1
+    end
+  | 1, Lv [bd; mb; a; b; xs; lv] =>
+    match get_bool bd, get_bool mb, get_Qc a, get_Qc b, get_LQc xs, get_LZ lv with
+    | Some bd, Some mb, Some a, Some b, Some xs, Some lv => of_grid (set_grid_1d bd mb a b xs lv)
+    | _, _, _, _, _, _ => sx_err 1
+    end
+  | 2, Lv [ps; ws; a; b; tols] =>
+    match get_LQc ps, get_LQc ws, get_Qc a, get_Qc b, get_LQc tols with
+    | Some ps, Some ws, Some a, Some b, Some tols =>
+      Lv [sx_bool (moments_ok ps ws a b tols);
+          of_LQc (map (moment_residual ps ws a b) (seq 0 (length tols)));
+          sx_bool (all_nonneg ws)]
+    | _, _, _, _, _ => sx_err 1
+    end
+  | 3, Lv [bd; mb; Lv dims] =>
+    match get_bool bd, get_bool mb with
+    | Some bd, Some mb =>
+      match opt_all (map (dim_quad bd mb) dims) with
+      | Some qs => Lv [Zv 1; of_Qc (prodQ qs)]
+      | None => Lv [Zv 0]
+      end
+    | _, _ => sx_err 1
+    end
+  | _, _ => sx_err 0
+  end.
